@@ -118,9 +118,19 @@ pub fn sweep_archive(b: &Base, archive: &[u8], which: Which, rep: &mut Report) {
                 }
             }
             Which::C05 => {
-                let RepairEval::Done(r) = &ev else {
-                    prev = None;
-                    continue;
+                // a repair that fails outright (error, unreadable output, panic) once the header is complete
+                // recovers nothing: it is judged like an empty result
+                let failed;
+                let r = match &ev {
+                    RepairEval::Done(r) => r,
+                    _ if n >= hl => {
+                        failed = sweep::Repaired { status: ev.class(), status_debug: format!("{ev:?}").chars().take(300).collect(), end_reached: false, unfinished: Vec::new(), files: BTreeMap::new() };
+                        &failed
+                    }
+                    _ => {
+                        prev = None;
+                        continue;
+                    }
                 };
                 let rec = sweep::recovered(orig, r);
                 let lt = b.cfg.layers.tag();
